@@ -816,7 +816,20 @@ impl SvgElement {
             "xy", "cxy", "xy1", "xy2", "xy-loc", "dxy", "wh", "dwh", "dw", "dh", "rxy", "surround",
             "inside", "start", "end",
         ];
-        if let Some(attr) = UNRESOLVED_ATTRS.iter().find(|a| self.has_attr(a)) {
+        // The same applies to position attributes which aren't native to the shape
+        // (e.g. `x2` on a circle); these are replaced when layout completes.
+        let foreign_attrs: &[&str] = match self.name.as_str() {
+            "rect" => &["x1", "y1", "x2", "y2", "cx", "cy"],
+            "circle" => &["x", "y", "x1", "y1", "x2", "y2", "width", "height"],
+            "ellipse" => &["x", "y", "x1", "y1", "x2", "y2", "width", "height"],
+            "line" => &["x", "y", "cx", "cy", "width", "height"],
+            _ => &[],
+        };
+        if let Some(attr) = UNRESOLVED_ATTRS
+            .iter()
+            .chain(foreign_attrs)
+            .find(|a| self.has_attr(a))
+        {
             return Err(SvgdxError::MissingBoundingBox(format!(
                 "{self} ('{attr}' not yet resolved)"
             )));
